@@ -21,6 +21,7 @@ type genProfile struct {
 	inits          []uint64
 	maxN           int
 	multiTarget    bool
+	fOnly          bool
 }
 
 func weighted[T any](t *rapid.T, label string, items []T, weights []int) T {
@@ -83,7 +84,12 @@ func genCfg(t *rapid.T, p genProfile) simCfg {
 	if len(vcs) == 0 {
 		vcs = []int{0, 0, 1, 2}
 	}
+	var f uint32
+	if p.fOnly {
+		f = uint32(rapid.IntRange(1, int(fullMask(n))).Draw(t, "fmask"))
+	}
 	return simCfg{
+		F: f,
 		N: n, Powers: pows,
 		Init:      rapid.SampledFrom(inits).Draw(t, "init"),
 		ValChange: rapid.SampledFrom(vcs).Draw(t, "valchange"),
@@ -156,6 +162,9 @@ func genOp(t *rapid.T, cfg simCfg, p genProfile, depth int) Op {
 		nt := 1
 		if p.multiTarget {
 			nt = weighted(t, "ntargets", []int{1, 2, 3, 4}, []int{6, 3, 1, 1})
+		}
+		if p.fOnly {
+			nt = weighted(t, "ntargets", []int{1, 2, 3, 4}, []int{2, 4, 2, 2})
 		}
 		for i := 0; i < nt; i++ {
 			op.T = append(op.T, genVT(t, n, p))
